@@ -98,3 +98,19 @@ impl LuaIndex for LuaOperatorIndex {
         self.in_filed_operator_map.clear();
     }
 }
+
+#[cfg(emmyluals_emmylua_analyzer_rust_verif)]
+impl LuaOperatorIndex {
+    /// Verification hook: entry counts of every container of this index.
+    pub fn verif_sizes(&self) -> Vec<(&'static str, usize)> {
+        vec![
+            ("operators", self.operators.len()),
+            ("type_operators_map", self.type_operators_map.len()),
+            (
+                "type_operators_map/ops",
+                self.type_operators_map.values().map(|m| m.len()).sum(),
+            ),
+            ("in_filed_operator_map", self.in_filed_operator_map.len()),
+        ]
+    }
+}
